@@ -75,6 +75,35 @@ class Invalid(Exception):
     pass
 
 
+def str_prefix(init):
+    return init[2] if len(init) > 2 else ""
+
+
+def str_units(text, prefix):
+    """code units of a string literal body (C11 6.4.5): UTF-8 for "" and u8"", UTF-16 for u"", code points for U"" and L"" """
+    if prefix in ("", "u8"):
+        return list(text.encode("utf-8"))
+    if prefix == "u":
+        b = text.encode("utf-16-le")
+        return [b[i] | (b[i + 1] << 8) for i in range(0, len(b), 2)]
+    return [ord(c) for c in text]
+
+
+def str_fits(init, t):
+    """may the string literal `init` initialise an object of type t? (6.7.9p14/15: character array for narrow/UTF-8 literals,
+    array of the matching wide element type otherwise)"""
+    if not (isinstance(t, Array) and isinstance(t.elem, Scalar) and t.elem.width is None and t.elem.name != "_Bool"):
+        return False
+    p = str_prefix(init)
+    if p in ("", "u8"):
+        return t.elem.size == 1
+    if p == "u":
+        return t.elem.name == "unsigned short"
+    if p == "U":
+        return t.elem.name == "unsigned int"
+    return t.elem.name == "int"          # L"": wchar_t is int
+
+
 def nelems(t):
     if isinstance(t, Array):
         return t.n            # None = unknown bound
@@ -140,9 +169,9 @@ class Ref:
             self.set_leaf(path, t, init[1])
             return
         if init[0] == "str":
-            if not (isinstance(t, Array) and isinstance(t.elem, Scalar) and t.elem.is_char()):
+            if not str_fits(init, t):
                 raise Invalid("string for non-char-array")
-            self.init_string(t, init[1], path)
+            self.init_string(t, init, path)
             return
         if init[0] != "list":
             raise Invalid("scalar expression for an aggregate")
@@ -152,11 +181,11 @@ class Ref:
         self.clear(t, path)
         self.init_list(t, init[1], path)
 
-    def init_string(self, t, text, path):
+    def init_string(self, t, init, path):
         if any(a.startswith(path + "[") for a in self.assigned):
             raise Invalid("string re-initialisation")
         self.assigned.add(path + "[0]")
-        bs = text.encode() + b"\0"
+        bs = str_units(init[1], str_prefix(init)) + [0]
         n = t.n
         if n is None:
             raise Invalid("nested unknown bound")
@@ -166,6 +195,20 @@ class Ref:
             self.vals["%s[%d]" % (path, i)] = truncate(bs[i], t.elem) if i < len(bs) else 0
 
     def init_list(self, ty, items, path):
+        # GNU range designators: `[lo ... hi] = v` initialises every element lo..hi with v and initialisation continues
+        # after element hi, i.e. it is the item sequence [lo] = v, [lo+1] = v, ..., [hi] = v (v has no side effects here)
+        exp = []
+        for desig, init in items:
+            chains = [[]]
+            for d in desig:
+                if d[0] == "r":
+                    if d[1] > d[2]:
+                        raise Invalid("empty range")
+                    chains = [c + [("i", k)] for c in chains for k in range(d[1], d[2] + 1)]
+                else:
+                    chains = [c + [d] for c in chains]
+            exp += [(c, init) for c in chains]
+        items = exp
         top_unknown = isinstance(ty, Array) and ty.n is None
         stack = [[ty, 0, path]]             # frames: [aggregate type, index, path of the aggregate]
         first = True
@@ -209,12 +252,12 @@ class Ref:
                 self.maxidx = max(self.maxidx, stack[0][1])
             if init[0] == "list":
                 self.init_object(st, init, p + suf)
-            elif init[0] == "str" and isinstance(st, Array) and isinstance(st.elem, Scalar) and st.elem.is_char():
-                self.init_string(st, init[1], p + suf)
+            elif init[0] == "str" and str_fits(init, st):
+                self.init_string(st, init, p + suf)
             else:
                 # brace elision: descend to the first scalar (or char array for a string)
                 while not isinstance(st, Scalar):
-                    if init[0] == "str" and isinstance(st, Array) and isinstance(st.elem, Scalar) and st.elem.is_char():
+                    if init[0] == "str" and str_fits(init, st):
                         break
                     stack.append([st, 0, p + suf])
                     t, i, p = stack[-1]
@@ -223,7 +266,7 @@ class Ref:
                 if init[0] == "str":
                     if isinstance(st, Scalar):
                         raise Invalid("string for scalar")
-                    self.init_string(st, init[1], p + suf)
+                    self.init_string(st, init, p + suf)
                 else:
                     self.set_leaf(p + suf, st, init[1])
             # advance
@@ -243,9 +286,11 @@ class Ref:
         t = self.ty
         if isinstance(t, Array) and t.n is None:
             if init[0] == "str":
-                n = len(init[1].encode()) + 1
+                n = len(str_units(init[1], str_prefix(init))) + 1
                 self.ty = Array(t.elem, n)
-                self.init_string(self.ty, init[1], "")
+                if not str_fits(init, self.ty):
+                    raise Invalid("string for non-char-array")
+                self.init_string(self.ty, init, "")
                 return self
             if init[0] != "list":
                 raise Invalid("bad initializer for array")
@@ -273,10 +318,10 @@ def ctext(init):
     if init[0] == "expr":
         return str(init[1])
     if init[0] == "str":
-        return '"%s"' % init[1]
+        return '%s"%s"' % (str_prefix(init), init[1])
     parts = []
     for desig, sub_ in init[1]:
-        d = "".join((".%s" % x[1]) if x[0] == "m" else ("[%d]" % x[1]) for x in desig)
+        d = "".join((".%s" % x[1]) if x[0] == "m" else ("[%d]" % x[1]) if x[0] == "i" else ("[%d ... %d]" % (x[1], x[2])) for x in desig)
         parts.append((d + " = " if d else "") + ctext(sub_))
     return "{ " + ", ".join(parts) + (", " if init[2] else " ") + "}"
 
@@ -310,6 +355,11 @@ class Gen:
             if isinstance(cur, Array):
                 n = cur.n if cur.n is not None else 4
                 i = self.rnd.randrange(n)
+                if self.rnd.random() < 0.2 and (isinstance(cur.elem, Scalar) or self.rnd.random() < 0.3):
+                    # a range designator, always the LAST designator of the chain
+                    j = self.rnd.randrange(i, n)
+                    chain.append(("r", i, j))
+                    return chain, cur.elem
                 chain.append(("i", i))
                 cur = cur.elem
             else:
@@ -326,9 +376,8 @@ class Gen:
             if r.random() < 0.08:
                 return ("list", [([], self.val())], False)
             return self.val()
-        if isinstance(t, Array) and isinstance(t.elem, Scalar) and t.elem.is_char() and r.random() < 0.5:
-            n = t.n if t.n is not None else 4
-            return ("str", "".join(r.choice("abcxyz") for _ in range(r.randrange(0, n + (0 if t.n else 1)))))
+        if isinstance(t, Array) and isinstance(t.elem, Scalar) and self.prefixes(t.elem) and r.random() < 0.5:
+            return self.string_for(t)
         items = []
         budget = r.randrange(1, self.nleaves(t) + 1)
         count = r.randrange(1, min(6, budget) + 1)        # C11 has no empty initializer list
@@ -346,13 +395,34 @@ class Gen:
                     items.append((chain, self.val()))
             else:
                 if isinstance(st, Scalar) or r.random() < 0.4 or depth >= 2:
-                    if isinstance(st, Array) and isinstance(st.elem, Scalar) and st.elem.is_char() and r.random() < 0.5:
-                        items.append((chain, ("str", "q" * r.randrange(0, (st.n or 2)))))
+                    if isinstance(st, Array) and isinstance(st.elem, Scalar) and self.prefixes(st.elem) and r.random() < 0.5:
+                        items.append((chain, self.string_for(st)))
                     else:
                         items.append((chain, self.val()))
                 else:
                     items.append((chain, self.init_for(st, depth + 1)))
         return ("list", items, r.random() < 0.3)
+
+    def prefixes(self, e):
+        if e.width is not None or e.name == "_Bool":
+            return []
+        if e.size == 1:
+            return ["", "", "u8"]
+        return {"unsigned short": ["u"], "unsigned int": ["U"], "int": ["L"]}.get(e.name, [])
+
+    def string_for(self, t):
+        """a string literal that fits the array type t (element count incl. the optional terminator, 6.7.9p14)"""
+        r = self.rnd
+        p = r.choice(self.prefixes(t.elem))
+        n = t.n if t.n is not None else 4
+        alpha = ["a", "b", "x", "y", "z", "q"] + (["\u00e9", "\u20ac", "\U0001f600"] if p else [])
+        for _ in range(20):
+            text = "".join(r.choice(alpha) for _ in range(r.randrange(0, n + 1)))
+            if len(str_units(text, p)) <= n:
+                break
+        else:
+            text = ""
+        return ("str", text, p)
 
     def first_sub(self, t):
         if isinstance(t, Array):
@@ -374,6 +444,9 @@ IN3 = Struct("In3", [("a", CHAR), ("b", Array(SHORT, 2)), ("c", LONG)])
 UN = Struct("Un", [("i", INT), ("c", Array(CHAR, 4)), ("l", LONG)], union=True)
 BF = Struct("Bf", [("p", Scalar("int", 4, True, 3)), ("", Scalar("int", 4, True, 2)), ("q", Scalar("unsigned int", 4, False, 5)), ("", Scalar("int", 4, True, 0)),
                    ("r", Scalar("int", 4, True, 9)), ("t", INT)])
+USHORT = Scalar("unsigned short", 2, False)
+UINT_ = Scalar("unsigned int", 4, False)
+WIDE = Struct("Wide", [("n", INT), ("u", Array(USHORT, 4)), ("w", Array(INT, 3)), ("c", Array(CHAR, 5)), ("z", LONG)])
 BOOL_ = Scalar("_Bool", 1, False)
 BF2 = Struct("Bf2", [("a", Scalar("long", 8, True, 64)), ("b", Scalar("long", 8, True, 40)), ("c", Scalar("unsigned long", 8, False, 24)),
                      ("f", Scalar("_Bool", 1, False, 1)), ("g", BOOL_), ("h", Scalar("unsigned long", 8, False, 64)), ("k", Array(BOOL_, 2))])
@@ -384,6 +457,8 @@ TYPES = [
     ("out", OUT), ("deep", DEEP), ("str8", Array(CHAR, 8)), ("unk_int", Array(INT, None)), ("unk_p2", Array(P2, None)), ("unk_char", Array(CHAR, None)),
     ("unk_in3", Array(IN3, None)), ("arr_un", Array(UN, 2)), ("strs", Array(Array(CHAR, 4), 3)),
     ("bf2", BF2), ("arr_bf2", Array(BF2, 2)),
+    ("u16s", Array(USHORT, 6)), ("u32s", Array(UINT_, 5)), ("wcs", Array(INT, 5)), ("unk_u16", Array(USHORT, None)), ("unk_u32", Array(UINT_, None)),
+    ("wide_in", WIDE),
 ]
 
 
